@@ -44,7 +44,8 @@ BadAt(j) == NItem("refused", Bad[j], <<>>, -1)
 NEveryChar == 2 * 255
 EveryCharAt(j) ==
   LET cp == 1 + ((j - 1) % 255)
-      pre == IF j <= 255 THEN "0x" ELSE "0xa"
+      \* (as a second digit a hexadecimal digit gives a valid two-digit prefix: those searches belong to the family "two")
+      pre == IF j <= 255 \/ IsHexCode(cp) THEN "0x" ELSE "0xa"
   IN  NItem("every_character", New("", pre \o CpsToStr(<<cp>>), "", "", "", IF j % 2 = 0 THEN "1" ELSE "0"), <<>>, -1)
 O1 == NSingle
 O2 == O1 + NTwo
